@@ -224,11 +224,10 @@ let oracle_c18_case script trace =
           | Ok r ->
             let ob = { pv_has = has; pv_cons = cons; pv_res = r } in
             let tys = pm_types_of a and q = pm_query_of a in
-            if not (pm_oracle_q false !user perm tys q !inv ob) then
+            if not (pm_oracle_q !user perm tys q !inv ob) then
               fail (Printf.sprintf "step=%d targets: %s" li
                       (if has <> pm_spec_has !user perm then "has-permission-differs-from-match-spec"
                        else if not has then "no-permission-but-not-rejected-first"
-                       else if pm_sig_stale tys q && pm_oracle_q true !user perm tys q !inv ob then "stale-service-variable-admits-host"
                        else "unpermitted-object-returned-or-forbidden-name-not-rejected"))))
     | Some ("pm_http", a) ->
       (match next li with
@@ -244,11 +243,8 @@ let oracle_c18_case script trace =
             let acted = o @ c in
             let ob = { pv_has = has; pv_cons = None; pv_res = (if code = "404" then None else Some acted) } in
             if (not has) && (code <> "404" || acted <> []) then fail (Printf.sprintf "step=%d http: no-permission-but-request-served" li)
-            else if not (pm_oracle_q false !user h.ph_perm h.ph_tys h.ph_q !inv ob) then
-              fail (Printf.sprintf "step=%d http: %s" li
-                      (if pm_sig_stale h.ph_tys h.ph_q && pm_oracle_q true !user h.ph_perm h.ph_tys h.ph_q !inv ob
-                       then "stale-service-variable-admits-host"
-                       else "unpermitted-object-acted-on-or-forbidden-name-not-rejected"))
+            else if not (pm_oracle_q !user h.ph_perm h.ph_tys h.ph_q !inv ob) then
+              fail (Printf.sprintf "step=%d http: unpermitted-object-acted-on-or-forbidden-name-not-rejected" li)
             else if not (pm_oracle_joins !user !inv j) then
               fail (Printf.sprintf "step=%d http: unpermitted-joined-object-serialised" li)
           | _ -> fail (Printf.sprintf "step=%d unparsable-object" li)))
